@@ -43,11 +43,11 @@ type State struct {
 	defs       []string  // definitional facts (always true of the terms they mention)
 	calls      []CallRec // ghost log of calls (contracted / intrinsic externals of interest)
 	dead       bool
-	loopMark   int    // index into calls at the last loop entry
+	loopMark   int             // index into calls at the last loop entry
 	loopNames  map[string]bool // callee names that may be called inside a loop entered on this path (immutable map, replaced on change)
-	retInLoops []int  // ordinals of the loops whose body contains the return that ended this path
-	loopsDone  []int  // ordinals of the (top-level function's) loops this path left through the header's exit edge
-	panics     string // non-empty: path ended in panic (reason)
+	retInLoops []int           // ordinals of the loops whose body contains the return that ended this path
+	loopsDone  []int           // ordinals of the (top-level function's) loops this path left through the header's exit edge
+	panics     string          // non-empty: path ended in panic (reason)
 	trace      []string
 }
 
